@@ -79,7 +79,7 @@ pred BK(bf *buffer) = bf.mode == old(bf.mode) && bf.gctx == old(bf.gctx)
 -- ---------------------------------------------------------------- buffer wrappers (print.go)
 
 func (bf *buffer) write(q []byte)
-  requires [C02] S1(bf, $class(q))
+  requires [C02,C05] S1(bf, $class(q))
   requires [C06] S2(bf)
   requires [C05,C06] S3(bf)
   requires [C05] S4(bf, $class(q))
@@ -87,7 +87,7 @@ func (bf *buffer) write(q []byte)
   ensures BK(bf)
 
 func (bf *buffer) writeString(s string)
-  requires [C02] S1(bf, $class(s))
+  requires [C02,C05] S1(bf, $class(s))
   requires [C06] S2(bf)
   requires [C05,C06] S3(bf)
   requires [C05] S4(bf, $class(s))
@@ -95,7 +95,7 @@ func (bf *buffer) writeString(s string)
   ensures BK(bf)
 
 func (bf *buffer) writeByte(c byte)
-  requires [C02] S1(bf, $class(c))
+  requires [C02,C05] S1(bf, $class(c))
   requires [C06] S2(bf)
   requires [C05,C06] S3(bf)
   requires [C05] S4(bf, $class(c))
@@ -104,7 +104,7 @@ func (bf *buffer) writeByte(c byte)
   ensures BK(bf)
 
 func (bf *buffer) writeRune(r rune)
-  requires [C02] S1(bf, $class(r))
+  requires [C02,C05] S1(bf, $class(r))
   requires [C06] S2(bf)
   requires [C05,C06] S3(bf)
   requires [C05] S4(bf, $class(r))
@@ -551,6 +551,9 @@ func (p *pp) fmtFloat(v float64, size int, verb rune)
 
 func (p *pp) fmtComplex(v complex128, size int, verb rune)
   public verb
+  -- the parentheses and the "i" of a complex number are part of the rendering of the operand, not structure
+  class 2 before "p.buf.writeByte('(')"
+  class 2 before "p.buf.writeString(\"i)\")"
   requires B(p) && WP(p.fmt)
   ensures B(p) && Same(p) && WP(p.fmt)
   ensures KF(p) && KW(p) && p.panicking == old(p.panicking)
